@@ -4,10 +4,17 @@ cd "$(dirname "$0")" || exit 2
 rc=0
 for f in spec/*.tla; do
   m=$(basename "$f" .tla)
+  case "$m" in *Proof) continue;; esac     # proof modules import TLAPS.tla: they are checked by tlapm below
   (cd spec && java -cp /opt/veriftools/tla/tla2tools.jar:/opt/veriftools/tla/CommunityModules-deps.jar tla2sany.SANY "$m.tla" > /tmp/sany.$$ 2>&1) || { echo "SANY failed on $m"; tail -5 /tmp/sany.$$; rc=1; }
   if grep -q -i -e "parse error" -e "Fatal errors" -e "\*\*\* Errors" /tmp/sany.$$; then echo "SANY errors in $m"; grep -A4 -i -e "error" /tmp/sany.$$ | head -12; rc=1; fi
 done
 rm -f /tmp/sany.$$
+# the TLAPS proofs (re-proved by the checks of C08 / C19 too)
+pd=$(mktemp -d) && cp spec/Save.tla spec/SaveProof.tla spec/Resolver.tla spec/ResolverProof.tla "$pd"/ && for m in SaveProof ResolverProof; do
+  (cd "$pd" && timeout 600 tlapm --cleanfp "$m.tla" > "$pd/$m.out" 2>&1)
+  grep -q "obligations proved" "$pd/$m.out" || { echo "tlapm did not prove $m"; tail -5 "$pd/$m.out"; rc=1; }
+done
+rm -rf "$pd"
 PYTHONDONTWRITEBYTECODE=1 /venv/bin/python -c "
 from harness import env
 env.install()
